@@ -17,7 +17,7 @@ for mf in sorted(glob.glob('/verif/seeded/C*/*/meta.json')):
 head = "| property | mutation | what it changes | caught by | detected | note |\n|---|---|---|---|---|---|\n"
 s = open('/verif/DESIGN.md').read()
 a = s.index("| property | mutation | what it changes")
-b = s.index("## Appendix A")
+b = s.index("### 11.6")
 s = s[:a] + head + "\n".join(rows) + "\n\n" + s[b:]
 open('/verif/DESIGN.md', 'w').write(s)
 for k, v in sorted(rounds.items()):
